@@ -91,6 +91,11 @@ pub fn pools() -> &'static Pools {
 
 /// A string from the Shift-JIS domain with `0..=max_chars` characters.
 pub fn gen_sjis(rng: &mut Rng, max_chars: usize) -> String {
+    // now and then a long string aimed at buffer-size boundaries (every caller's format allows
+    // strings of any length); never under Miri, where the workloads are cut to the bone
+    if !cfg!(miri) && max_chars >= 4 && rng.chance(1, 48) {
+        return gen_sjis_boundary(rng);
+    }
     let p = pools();
     let n = rng.range(0, max_chars);
     let style = rng.below(7);
@@ -126,6 +131,76 @@ pub fn gen_sjis(rng: &mut Rng, max_chars: usize) -> String {
             s.push('x');
         } else {
             s.push(*rng.pick(pool));
+        }
+    }
+    debug_assert!(sjis_ok(&s));
+    s
+}
+
+/// Long strings from the Shift-JIS domain built around the sizes at which chunked or fixed-buffer
+/// string code changes behaviour: encoded lengths just below / at / above 64, 128, 256, 4096 bytes,
+/// two-byte characters that start on an odd encoded offset (so that one of them straddles every
+/// multiple of 64), runs of single-byte half-width katakana (1 byte in Shift-JIS, 3 in UTF-8),
+/// and single-byte strings of 246..=257 bytes.
+pub fn gen_sjis_boundary(rng: &mut Rng) -> String {
+    let p = pools();
+    let halfwidth: Vec<char> = p.kana.iter().copied().filter(|c| (0xff61..=0xff9f).contains(&(*c as u32))).collect();
+    let two_byte: Vec<char> = p.kana.iter().copied().filter(|c| !(0xff61..=0xff9f).contains(&(*c as u32))).collect();
+    let mut s = String::new();
+    let ascii = |rng: &mut Rng, n: usize, s: &mut String| {
+        for _ in 0..n {
+            s.push(*rng.pick(&p.ascii));
+        }
+    };
+    match rng.below(6) {
+        0 | 1 => {
+            // ASCII prefix so that the first two-byte character starts right at / around a boundary
+            let pre = *rng.pick(&[0usize, 1, 2, 3, 61, 62, 63, 64, 65, 125, 126, 127, 128, 129, 253, 254, 255, 256, 257]);
+            ascii(rng, pre, &mut s);
+            let n = rng.range(1, 140);
+            let pool = if rng.bool() { &two_byte } else { &p.kanji };
+            for _ in 0..n {
+                s.push(*rng.pick(pool));
+            }
+            let tail = rng.below(3);
+            ascii(rng, tail, &mut s);
+        }
+        2 => {
+            // one repeated two-byte character whose trail byte is itself in the lead-byte range
+            let pre = rng.below(2);
+            ascii(rng, pre, &mut s);
+            let ch = *rng.pick(&['メ', 'ア', 'ム', '亜', 'ソ']);
+            for _ in 0..rng.range(100, 300) {
+                s.push(ch);
+            }
+        }
+        3 => {
+            // runs of half-width katakana (expand 1 -> 3 bytes when decoded to UTF-8)
+            let n = rng.range(9, 80);
+            for _ in 0..n {
+                s.push(*rng.pick(&halfwidth));
+            }
+            let tail = rng.below(4);
+            ascii(rng, tail, &mut s);
+        }
+        4 => {
+            // single-byte strings just around 246..257 bytes
+            let n = *rng.pick(&[245usize, 246, 247, 248, 254, 255, 256, 257, 258]);
+            ascii(rng, n, &mut s);
+        }
+        _ => {
+            // a few KiB: around 4096 encoded bytes, mixed widths
+            let target = *rng.pick(&[4094usize, 4095, 4096, 4097, 4098, 8192, 8193]);
+            let mut bytes = 0;
+            while bytes < target {
+                if bytes + 2 <= target && rng.bool() {
+                    s.push(*rng.pick(&two_byte));
+                    bytes += 2;
+                } else {
+                    s.push(*rng.pick(&p.ascii));
+                    bytes += 1;
+                }
+            }
         }
     }
     debug_assert!(sjis_ok(&s));
